@@ -139,6 +139,8 @@ class JsonResource(Resource):
     #     return result
 
     def to_dict(self, obj, is_noncont_ref=False, is_attr=False, feature=None):
+        if obj is None:
+            return None  # JSON null, whatever the type of the feature
         if isinstance(obj, type) and issubclass(obj, EObject):
             if is_noncont_ref:
                 fun = self._to_ref_from_obj
@@ -229,7 +231,9 @@ class JsonResource(Resource):
 
     def process_inst(self, inst, features, owning_feature=None):
         for feature, value in features:
-            if feature._eType is EStringToStringMapEntry and isinstance(value, dict):
+            if value is None and not feature.many:
+                inst.eSet(feature, None)  # JSON null
+            elif feature._eType is EStringToStringMapEntry and isinstance(value, dict):
                 key, val = next(iter(value.items()))
                 inst.eGet(feature)[key] = val
             elif isinstance(value, dict):
@@ -241,7 +245,9 @@ class JsonResource(Resource):
                                 for x in value)
                     elements = (x for x in elements if x is not None)
                 else:
-                    elements = (feature._eType.from_string(x) for x in value)
+                    from_string = feature._eType.from_string
+                    elements = (None if x is None else from_string(x)
+                                for x in value)
                 inst.eGet(feature).extend(list(elements))
             elif isinstance(value, str):
                 inst.eSet(feature, feature._eType.from_string(value))
